@@ -78,6 +78,40 @@ def call(f, fmt):
         return "err " + canon_exc(e)
 
 
+def huge(ctx):
+    """content lengths at the 3-octet / 4-octet DER length boundary (16 MiB), oracle only (too large for the line protocol in the
+    quick tier): emitted bytes = the canonical template, decode(encode x) = x, re-encoding is the identity — both layouts"""
+    import dataclasses
+    from dpapi_ng._blob import DPAPINGBlob
+    base = make_blob(ctx.rng, enc_len=0, sid="S-1-5-21-1-2-3-1103")
+    base = dataclasses.replace(base, enc_cek_parameters=None, enc_content_parameters=bytes.fromhex("3011040c") + bytes(12) + bytes.fromhex("020110"),
+                               enc_cek_algorithm=WRAP, enc_content_algorithm=GCM)
+    for n in (2**24 - 300, 2**24 - 1, 2**24, 2**24 + 1):
+        b = dataclasses.replace(base, enc_content=bytes([n % 251]) * n)
+        for in_env in (True, False):
+            ctx.count("huge:" + ("in-envelope" if in_env else "trailing"))
+            what = {"enc_content_len": n, "in_envelope": in_env, "scenario": "huge"}
+            try:
+                raw = b.pack(blob_in_envelope=in_env)
+            except Exception as e:  # noqa
+                ctx.violation("a well-formed blob value fails to encode", what, f"{type(e).__name__}: {e}", "ok")
+                continue
+            want = template(b, in_env)
+            if raw != want:
+                d = next(i for i in range(min(len(raw), len(want))) if raw[i] != want[i]) if raw[:len(want)] != want[:len(raw)] else min(len(raw), len(want))
+                ctx.violation("emitted blob differs from the canonical RFC 5652 / Windows layout", what, f"first difference at octet {d}: {hx(raw[max(0, d - 8):d + 8])}", hx(want[max(0, d - 8):d + 8]))
+                continue
+            try:
+                back = DPAPINGBlob.unpack(raw)
+            except Exception as e:  # noqa
+                ctx.violation("decode(encode(x)) != x", what, f"{type(e).__name__}: {e}", "x")
+                continue
+            if back != b:
+                ctx.violation("decode(encode(x)) != x", what, "a different blob value", "x")
+            elif back.pack(blob_in_envelope=in_env) != raw:
+                ctx.violation("re-encoding a decoded emitted blob changes the bytes", what, "differs", "identical")
+
+
 def run(ctx):
     from dpapi_ng._blob import DPAPINGBlob, ProtectionDescriptor
     prelude.validate(ctx)
@@ -188,6 +222,7 @@ def run(ctx):
             ctx.count("malformed:bitflip")
     for i in range(0, len(cases), 3000):
         ctx.compare_batch(cases[i:i + 3000], nontrivial=lambda line, impl: impl.startswith("ok"))
+    huge(ctx)
 
 
 def search(ctx, broken, disagreements):
